@@ -87,6 +87,8 @@ var (
 	}
 	// NowHook gives event time stamps.
 	NowHook = time.Now
+	// ClockMsHook, when set, gives event time stamps directly (virtual milliseconds).
+	ClockMsHook func() int64
 	// YieldHook is called where a real process could be observed from outside
 	// (after create, before start). Default: nothing.
 	YieldHook = func(what string) {}
@@ -108,7 +110,11 @@ func Current() *World {
 
 func (w *World) emit(e Event) {
 	w.mu.Lock()
-	e.T = NowHook().Sub(w.t0).Milliseconds()
+	if ClockMsHook != nil {
+		e.T = ClockMsHook()
+	} else {
+		e.T = NowHook().Sub(w.t0).Milliseconds()
+	}
 	w.Events = append(w.Events, e)
 	f := w.OnEvent
 	w.mu.Unlock()
